@@ -75,6 +75,8 @@ class Kernel(object):
         self.line_files = None      # set by seams when line mode is on
         self.line_counter = 0
         self.cpu_step = float(cpu_step)
+        self.spin_cap = max(2e-3, float(cpu_step))
+        self.reads_since_progress = 0
         self.max_steps = max_steps
         self.max_vtime = max_vtime
         self.wall_timeout = wall_timeout
@@ -96,6 +98,7 @@ class Kernel(object):
         self.counters = {}
         self.io = []                # (seq, task, kind, endpoint, bytes): transport history
         self.registry = {}          # free-form: ports, listeners ... used by seams
+        self._last_task = None
 
     # ------------------------------------------------------------------ log
     def log(self, kind, *payload):
@@ -134,8 +137,20 @@ class Kernel(object):
         """Clock read by code under test: advances virtual time by cpu_step."""
         self._check_shutdown()
         t = self.now
-        self.now += self.cpu_step
+        # A clock read costs cpu_step.  A busy-wait (many reads in a row while no byte moves and
+        # nobody else runs) is fast-forwarded: the step doubles every 8 further reads up to
+        # spin_cap, so a spin ends at most spin_cap after its deadline instead of costing
+        # timeout / cpu_step real iterations.  Any transport progress resets it.
+        self.reads_since_progress += 1
+        step = self.cpu_step
+        if self.reads_since_progress > 64:
+            step = min(self.spin_cap, self.cpu_step * (2 ** min(40, (self.reads_since_progress - 64) // 8)))
+            self.counters['spin_fast_forward'] = self.counters.get('spin_fast_forward', 0) + 1
+        self.now += step
         return t
+
+    def progress(self):
+        self.reads_since_progress = 0
 
     def call_at(self, when, fn, label=''):
         self.seq += 1
@@ -343,6 +358,9 @@ class Kernel(object):
                 continue
             self.steps += 1
             kind, obj = enabled[self.choose(len(enabled))]
+            if kind != 't' or obj is not self._last_task:
+                self.reads_since_progress = 0      # somebody else got to run: not a lone spin
+            self._last_task = obj if kind == 't' else None
             if kind == 't':
                 self.log('run', obj.name, obj.wait_label or '')
                 self._switch_to(obj)
